@@ -11,5 +11,6 @@ CONSTANTS
   MaxFetchErr = 3
   MaxClose = 3
   MaxDropped = 3
+  MaxSwallow = 2
 INVARIANTS TypeOK AtMostOneReply AnnounceOK QuiescentAllReplied QueueDiscipline
 CHECK_DEADLOCK FALSE
